@@ -19,7 +19,7 @@ from typing import Any, Dict, List
 
 from . import common, tlc
 
-NEG = re.compile(r"(AsCoded|Neg|DeclOrder|BadId|ExactDue|Shallow)", re.I)
+NEG = re.compile(r"(AsCoded|Neg|DeclOrder|BadId|ExactDue|Shallow|BusyLink|KeepEnabled|KeepLinks|SharedDir)", re.I)
 
 
 def main(tier: str, seed: int) -> int:
@@ -43,7 +43,7 @@ def main(tier: str, seed: int) -> int:
 
     def refute(cfg: Path):
         mod = cfg.stem
-        cands = [mod] + [mod[: mod.index(x)] for x in ("AsCoded", "Neg", "DeclOrder", "BadId", "ExactDue", "Shallow", "Reply", "Shadow") if x in mod]
+        cands = [mod] + [mod[: mod.index(x)] for x in ("AsCoded", "Neg", "DeclOrder", "BadId", "ExactDue", "Shallow", "Reply", "Shadow", "BusyLink", "KeepEnabled", "KeepLinks", "SharedDir") if x in mod]
         module = next((c for c in cands if (spec / f"{c}.tla").exists()), None)
         if module is None:
             return cfg.name, "no module"
